@@ -319,7 +319,7 @@ def fn_item(item):
 
 
 # ---- end to end ---------------------------------------------------------------------------------
-FS = 50.0
+FS = 51.2          # a non-integer sampling rate
 NREC = 8192
 
 
